@@ -80,7 +80,8 @@ func sameResult(a, b *vegeta.Result) bool { return reflect.DeepEqual(render(a), 
 
 // ---------------------------------------------------------------- generator
 
-var textAlphabet = []string{"a", "Z", "9", " ", ",", "\"", "\n", "'", ";", "é", "漢", "\t", "\\", ":", "#", "=", "{", "}", "[", "]", "/", "&"}
+var textAlphabet = []string{"a", "Z", "9", " ", ",", "\"", "\n", "'", ";", "é", "漢", "\t", "\\", ":", "#", "=", "{", "}", "[", "]", "/", "&",
+	"\\r", "\\n", "\\t", "\\\"", "r", "n", "%", "\u00a0", "\u3000", "\u2028", "<", ">"} // also: the two characters backslash-r etc. as plain text, white space beyond ASCII
 
 func genText(r *rand.Rand, max int) string {
 	n := r.Intn(max + 1)
@@ -92,7 +93,8 @@ func genText(r *rand.Rand, max int) string {
 }
 
 func genHeaderValue(r *rand.Rand) string {
-	s := strings.TrimSpace(strings.NewReplacer("\n", "", "\t", "").Replace(genText(r, 12)))
+	// header values cannot carry line breaks, and the MIME layer trims ASCII blanks at the edges - nothing else
+	s := strings.Trim(strings.NewReplacer("\n", "", "\t", "", "\u2028", "").Replace(genText(r, 12)), " ")
 	return s
 }
 
@@ -921,6 +923,9 @@ func TestDrv_C13(t *testing.T) {
 		k := 1 + r.Intn(6)
 		if s%9 == 4 {
 			k = 12 + r.Intn(20) // many files
+		}
+		if s%27 == 13 {
+			k = 65 + r.Intn(30) // more files than a machine word has bits
 		}
 		lens := make([]int, k)
 		files := make([][]vegeta.Result, k)
